@@ -104,6 +104,31 @@ func errorDiscipline(r *Run, p *Prog, T *Terms, rule string, fns []*ssa.Function
 							}
 						}
 					}
+					if repoCall && anyUsed {
+						// `l, _ := s.GetListener()`: fine when the value is tested before it is used
+						for _, v := range others {
+							switch v.Type().Underlying().(type) {
+							case *types.Pointer, *types.Interface, *types.Slice, *types.Map, *types.Signature, *types.Chan:
+							default:
+								continue
+							}
+							for _, ref := range *v.Referrers() {
+								switch ref.(type) {
+								case *ssa.DebugRef, *ssa.BinOp, *ssa.Phi:
+									continue
+								}
+								if st, isSt := ref.(*ssa.Store); isSt {
+									if _, isVar := st.Addr.(*ssa.Alloc); isVar {
+										continue
+									}
+								}
+								nCalls++
+								okv := hasFact(T.FactsAt(ref.Block()), "NE", T.T(v), "nil")
+								r.Ob(rule, shortName(f), fmt.Sprintf("result of %s is used only after its error (or the result itself) was examined", calleeName(&c.Call)), ref.Pos(), okv,
+									"a result of "+calleeName(&c.Call)+" is used although neither its error nor the value was tested: after a failure the value is nil")
+							}
+						}
+					}
 					if repoCall && !anyUsed {
 						nCalls++
 						r.Ob(rule, shortName(f), fmt.Sprintf("the error of %s is looked at", calleeName(&c.Call)), c.Pos(), false,
@@ -136,9 +161,59 @@ func errorDiscipline(r *Run, p *Prog, T *Terms, rule string, fns []*ssa.Function
 						if !isK || !k.IsNil() {
 							continue
 						}
-						okv := errKnownNil(p, T, T.FactsAt(rv.Ret.Block()), eT)
+						okv := errKnownNil(p, T, T.FactsAt(rv.Ret.Block()), eT) || errNilOnEveryPath(p, T, f, c, rv.Ret, eT)
 						r.Ob(rule, shortName(f), fmt.Sprintf("success is returned only where the error of %s (call #%d) is known to be nil", name, ord), rv.Ret.Pos(), okv,
 							"a `return ..., nil` is reachable although "+name+" may have failed: the failure is reported as success (flipped or missing test, or nil returned on the failure branch)")
+					}
+				}
+				// E4 (inverted test): the error value itself is returned on an edge where it is known to be nil, as the early
+				// exit of a test - `if err == nil { return 0, err }` - while the failure falls through
+				if fErr {
+					for _, rv := range returnedValues(f, res.Len()-1) {
+						if rv.Val != e || !hasFact(T.FactsAt(rv.Ret.Block()), "EQ", eT, "nil") {
+							continue
+						}
+						// (the last statement of a function may well `return v, err` after everything was checked: only an
+						// exit that has a sibling continuing on the failure edge is judged)
+						cont := false
+						for _, b2 := range f.Blocks {
+							for _, s2 := range b2.Succs {
+								if hasFact(T.edgeFactsOn(b2, s2), "NE", eT, "nil") {
+									if reach, _ := reachFromBlock(f, s2, func(in ssa.Instruction) bool {
+										_, isCall := in.(ssa.CallInstruction)
+										return isCall
+									}, nil); reach {
+										cont = true
+									}
+								}
+							}
+						}
+						if cont {
+							r.Ob(rule, shortName(f), fmt.Sprintf("the error of %s (call #%d) is not returned on the edge where it is nil while the failure goes on", name, ord), rv.Ret.Pos(), false,
+								"the test of the error of "+name+" is inverted: the function returns (with a nil error) when the call succeeded and carries on when it failed")
+						}
+					}
+				}
+				// E4b: the process is terminated (os.Exit, log.Fatal) on the edge where the error is nil
+				for _, b2 := range f.Blocks {
+					if !hasFact(T.FactsAt(b2), "EQ", eT, "nil") {
+						continue
+					}
+					for _, in2 := range b2.Instrs {
+						ci, ok := in2.(ssa.CallInstruction)
+						if !ok {
+							continue
+						}
+						if nm := calleeName(ci.Common()); nm == "os.Exit" || strings.HasPrefix(nm, "log.Fatal") {
+							// (exit code 0 after success is an ordinary end)
+							if nm == "os.Exit" && len(ci.Common().Args) == 1 {
+								if k, isK := ci.Common().Args[0].(*ssa.Const); isK && k.Int64() == 0 {
+									continue
+								}
+							}
+							r.Ob(rule, shortName(f), fmt.Sprintf("the error of %s (call #%d): the failure exit is not taken on the edge where the error is nil", name, ord), in2.Pos(), false,
+								"the test of the error of "+name+" is inverted: the program exits with a failure status when the call succeeded and carries on when it failed")
+						}
 					}
 				}
 				// E2
@@ -215,7 +290,7 @@ func errorDiscipline(r *Run, p *Prog, T *Terms, rule string, fns []*ssa.Function
 								}
 							}
 						}
-						okv := errKnownNil(p, T, T.FactsAt(ref.Block()), eT)
+						okv := errKnownNil(p, T, T.FactsAt(ref.Block()), eT) || errNilOnEveryPath(p, T, f, c, ref, eT)
 						r.Ob(rule, shortName(f), fmt.Sprintf("result #%d of %s (call #%d) is used only where its error is known to be nil", v.(*ssa.Extract).Index, name, ord), ref.Pos(), okv,
 							"a result of "+name+" is used on a path on which the call may have failed (flipped or missing error test): the value is nil/zero or partial there")
 					}
@@ -312,4 +387,24 @@ func errKnownNil(p *Prog, T *Terms, fs []Fact, eT string) bool {
 		}
 	}
 	return false
+}
+
+// errNilOnEveryPath: every path from the call to the use crosses an edge on which the error is known to be nil; a path
+// that runs into os.Exit, log.Fatal or panic ends there (`if err != nil { fmt.Fprintln(os.Stderr, err); os.Exit(1) }`).
+func errNilOnEveryPath(p *Prog, T *Terms, f *ssa.Function, c *ssa.Call, use ssa.Instruction, eT string) bool {
+	reach, _ := reachInstr(f, c, func(in ssa.Instruction) bool { return in == use }, func(in ssa.Instruction) bool {
+		if _, isPanic := in.(*ssa.Panic); isPanic {
+			return true
+		}
+		ci, ok := in.(ssa.CallInstruction)
+		if !ok {
+			return false
+		}
+		switch nm := calleeName(ci.Common()); {
+		case nm == "os.Exit", strings.HasPrefix(nm, "log.Fatal"), strings.HasPrefix(nm, "log.Panic"), nm == "runtime.Goexit":
+			return true
+		}
+		return false
+	}, func(x, y *ssa.BasicBlock) bool { return errKnownNil(p, T, T.edgeFactsOn(x, y), eT) })
+	return !reach
 }
